@@ -544,6 +544,7 @@ func checkMain(args []string) {
 	}
 	fmt.Printf("%s tier=%s functions=%d obligations=%d discharged=%d violations=%d wall=%.1fs\n", id, tier, len(reps), nOb, nDis, violations, time.Since(t0).Seconds())
 	if violations > 0 {
+		os.RemoveAll(dir) // os.Exit skips the deferred clean-up
 		os.Exit(1)
 	}
 }
